@@ -10,7 +10,7 @@
 (* The judges are total: an outcome the specification has no value for     *)
 (* (a panic, a hang, an unknown result string) is itself a verdict.        *)
 (***************************************************************************)
-EXTENDS Aux, Json, IOUtils
+EXTENDS Aux, Json, IOUtils, SecretTable
 
 VARIABLES l,        \* index of the next event
           bad,      \* sequence of verdict records
@@ -20,6 +20,13 @@ vars == <<l, bad, cache>>
 
 Rec == ndJsonDeserialize(IOEnv.TRACE)
 CacheSize == 12
+
+(* Build-time limits of the library under test (C14), handed over by tools/vlib.py in the       *)
+(* environment; the configuration substitutes them for Hss!MaxLevels / MaxHeightAt / MinWAt.     *)
+EnvNat(name, default) == IF name \in DOMAIN IOEnv THEN atoi(IOEnv[name]) ELSE default
+EnvMaxLevels == EnvNat("LIM_LEVELS", 8)
+EnvMaxHeightAt(i) == EnvNat("LIM_H" \o ToString(i), 25)
+EnvMinWAt(i) == EnvNat("LIM_W" \o ToString(i), 1)
 
 B(x) == HexToBytes(x)
 
@@ -98,10 +105,11 @@ JudgeKeygen(e, c) ==
                                            BytesToHex(Take(B(e.aux_out), e.aux_len)))
                              ELSE <<>>)
                      ELSE <<>>
-            v == IF e.res = "ok" THEN CmpBytes("keygen_sk", exp.sk, e.sk) \o CmpBytes("keygen_pk", exp.pk, e.pk) \o auxV
-                 ELSE IF e.res = "err" /\ ~inLim THEN <<>>          \* beyond the build limits: refusal allowed
+            v == IF ~inLim THEN        \* beyond the build limits: refused with an error (C14)
+                     (IF e.res = "err" THEN <<>> ELSE <<Verdict("keygen_beyond_limits", "err", e.res)>> \o NoPanic(e))
+                 ELSE IF e.res = "ok" THEN CmpBytes("keygen_sk", exp.sk, e.sk) \o CmpBytes("keygen_pk", exp.pk, e.pk) \o auxV
                  ELSE <<Verdict("keygen_result", "ok", e.res)>> \o NoPanic(e)
-        IN  [v |-> v, c |-> CachePut(c, <<[key |-> tkey, tree |-> tree]>>)]
+        IN  [v |-> v, c |-> IF inLim /\ e.res = "ok" THEN CachePut(c, <<[key |-> tkey, tree |-> tree]>>) ELSE c]
 
 (* ======================================================================= *)
 (* sign                                                                    *)
@@ -161,9 +169,11 @@ JudgeSign(e, c) ==
     LET alg == e.alg
         key == B(e.key)
         msg == B(e.msg)
-    IN  IF SignOk(alg, key) /\ Light(e) /\ e.plan = "accept" THEN [v |-> JudgeSignLight(e), c |-> c]
-        ELSE IF ~SignOk(alg, key) THEN
-            (* malformed / wiped / exhausted / out-of-range key: error, no callback, no signature *)
+        usable == SignOk(alg, key) /\ WithinLimits(ParseKey(alg, key).params)
+    IN  IF usable /\ Light(e) /\ e.plan = "accept" THEN [v |-> JudgeSignLight(e), c |-> c]
+        ELSE IF ~usable THEN
+            (* malformed / wiped / exhausted / out-of-range key, or parameters beyond the build limits: *)
+            (* error, no callback, no signature                                                         *)
             [v |-> (IF e.res = "err" THEN <<>> ELSE <<Verdict("sign_bad_key", "err", e.res)>> \o NoPanic(e))
                    \o CmpVal("cb_count", 0, e.cb_n)
                    \o CmpVal("sig_released", "", e.sig),
@@ -174,11 +184,9 @@ JudgeSign(e, c) ==
             trees == [i \in 1..Len(pt) |-> pt[i].tree]
             exp   == SpecSignWith(alg, key, msg, trees)
             c2    == CachePut(c, pt)
-            inLim == WithinLimits(k.params)
             res   == e.res
             v ==
-              IF ~inLim /\ res = "err" /\ e.cb_n = 0 /\ e.sig = "" THEN <<>>
-              ELSE CASE e.plan = "accept" ->
+              CASE e.plan = "accept" ->
                         CmpVal("sign_result", "ok", res) \o NoPanic(e)
                         \o CbVerdicts(e, TRUE, exp.next)
                         \o (IF res = "ok" THEN CmpBytes("sig_bytes", exp.sig, e.sig) ELSE <<>>)
@@ -195,6 +203,65 @@ JudgeSign(e, c) ==
                         \o CmpVal("sig_released", "", e.sig)
                    [] OTHER -> <<Verdict("unknown_plan", "", e.plan)>>
         IN  [v |-> v \o LsNotes(alg, k.params), c |-> c2]
+
+(* ======================================================================= *)
+(* sign_mut (fast_verify feature, C15)                                     *)
+(* ======================================================================= *)
+(* digit sum of every LM-OTS signature inside an HSS signature = the number of hash iterations   *)
+(* the signer spent on chains (reported as Signature::hash_iterations by the verbose feature)    *)
+RECURSIVE SumDigitsR(_, _)
+SumDigitsR(a, i) == IF i > Len(a) THEN 0 ELSE a[i] + SumDigitsR(a, i + 1)
+HashIterations(alg, key, msg, sig) ==
+    LET hs == ParseHssSig(alg, sig)
+        k  == ParseKey(alg, key)
+        L  == Len(hs.sigs)
+        Iof(i) == IF i = 1 THEN TopSeed(alg, k.seed).I ELSE hs.pubs[i - 1].parsed.I
+        per(i) == SumDigitsR(Digits(OtsDigest(alg, Iof(i), hs.sigs[i].q, hs.sigs[i].C,
+                                              IF i = L THEN msg ELSE hs.pubs[i].bytes),
+                                    N(alg), W(hs.sigs[i].otsT)), 1)
+    IN  SumSeq([i \in 1..L |-> per(i)])
+
+JudgeSignMut(e, c) ==
+    LET alg == e.alg
+        n   == N(alg)
+        key == B(e.key)
+        mi  == B(e.msg)
+        mo  == B(e.msg_out)
+        refused == Len(mi) <= n \/ ~IsAll(Drop(mi, Len(mi) - n), 0)
+        usable == SignOk(alg, key) /\ WithinLimits(ParseKey(alg, key).params)
+    IN  IF refused \/ ~usable THEN
+            (* too short, trailer not zero, or unusable key: refused, nothing consumed, message untouched *)
+            [v |-> (IF e.res = "err" THEN <<>> ELSE <<Verdict("sign_mut_refusal", "err", e.res)>> \o NoPanic(e))
+                   \o CmpVal("cb_count", 0, e.cb_n) \o CmpVal("sig_released", "", e.sig)
+                   \o CmpBytes("msg_untouched", mi, e.msg_out),
+             c |-> c]
+        ELSE
+        LET k     == ParseKey(alg, key)
+            pt    == PathTrees(c, alg, k)
+            trees == [i \in 1..Len(pt) |-> pt[i].tree]
+            exp   == SpecSignWith(alg, key, mo, trees)       \* an ORDINARY signature of the RETURNED message
+            body  == Len(mi) - n
+            v == CASE e.plan = "accept" ->
+                        CmpVal("sign_result", "ok", e.res) \o NoPanic(e)
+                        \o CmpVal("msg_len", Len(mi), Len(mo))
+                        \o CmpBytes("msg_body_untouched", Take(mi, body), BytesToHex(Take(mo, body)))
+                        \o CbVerdicts(e, TRUE, exp.next)
+                        \o (IF e.res = "ok" THEN CmpBytes("sig_bytes", exp.sig, e.sig)
+                                                 \o (IF SpecVerify(alg, mo, B(e.sig), SpecKeygenWith(alg, k.params, k.seed, trees[1]).pk)
+                                                     THEN <<>> ELSE <<Verdict("sig_verifies", TRUE, FALSE)>>)
+                                                 \o (IF e.hash_iterations > 0 /\ B(e.sig) = exp.sig
+                                                     THEN CmpVal("hash_iterations", HashIterations(alg, key, mo, exp.sig), e.hash_iterations)
+                                                     ELSE <<>>)
+                            ELSE <<>>)
+                        \o (IF e.stored THEN CmpBytes("stored_key", exp.next, e.stored_key) ELSE <<>>)
+                   [] e.plan = "reject" ->
+                        CmpVal("sign_result", "err", e.res) \o NoPanic(e)
+                        \o CbVerdicts(e, TRUE, exp.next)
+                        \o CmpVal("sig_released", "", e.sig)
+                        \o CmpBytes("msg_body_untouched", Take(mi, body), BytesToHex(Take(mo, body)))
+                   [] OTHER ->
+                        CmpVal("sign_result", "panic", e.res) \o CbVerdicts(e, TRUE, exp.next) \o CmpVal("sig_released", "", e.sig)
+        IN  [v |-> v \o LsNotes(alg, k.params), c |-> CachePut(c, pt)]
 
 (* ======================================================================= *)
 (* verify (all entry points)                                               *)
@@ -228,7 +295,8 @@ JudgeLifetime(e) ==
              IF T >= 64 THEN <<>>                                \* value left open for tall lists (C13)
              ELSE IF ~CtrInRange(k.ctr, hs) THEN
                   (IF isErr THEN <<>> ELSE <<Verdict("lifetime_bad_counter", "err", e.res)>>)
-             ELSE IF ~WithinLimits(k.params) /\ isErr THEN <<>>
+             ELSE IF ~WithinLimits(k.params) THEN
+                  (IF isErr THEN <<>> ELSE <<Verdict("lifetime_beyond_limits", "err", e.res)>>)
              ELSE CmpVal("lifetime_result", "ok", e.res)
                   \o (IF e.res = "ok" THEN CmpBytes("lifetime_value", BvToBytes(Lifetime(k.ctr, hs)), e.val) ELSE <<>>)
 
@@ -279,7 +347,8 @@ JudgeHook(e) ==
       [] e.hook \in {"zeroize", "drop"} ->
             (* SecretLifecycle: a populated value holds secret bytes; after zeroize / drop none survives *)
             CmpVal("secret_probe", "ok", e.res)
-            \o (IF e.res = "ok" /\ e.secret_before = 0 THEN <<Verdict("secret_probe_empty", ">0", 0)>> ELSE <<>>)
+            \o (IF e.res = "ok" /\ e.type_name \in SecretTypes /\ e.secret_before < SecretBytes(e.type_name, N(e.alg))
+                THEN <<Verdict("secret_probe_not_populated", SecretBytes(e.type_name, N(e.alg)), e.secret_before)>> ELSE <<>>)
             \o (IF e.res = "ok" /\ e.surviving # 0
                 THEN <<[kind |-> "secret_survives", exp |-> 0, got |-> e.surviving, type_name |-> e.type_name, how |-> e.hook]>>
                 ELSE <<>>)
@@ -297,6 +366,7 @@ Neg_SuccKey(alg, b) == b
 Judge(e, c) ==
     CASE e.ev = "keygen"   -> JudgeKeygen(e, c)
       [] e.ev = "sign"     -> JudgeSign(e, c)
+      [] e.ev = "sign_mut" -> JudgeSignMut(e, c)
       [] e.ev = "verify"   -> [v |-> JudgeVerify(e), c |-> c]
       [] e.ev = "lifetime" -> [v |-> JudgeLifetime(e), c |-> c]
       [] e.ev = "hook"     -> [v |-> JudgeHook(e), c |-> c]
